@@ -1222,7 +1222,7 @@ fn main() {
     // corpus: the two index-reuse witnesses (register reads; process-data cycles of two groups)
     one_case(&gen_case(1, 1), &mut rep);
     one_case(&gen_case(2, 1), &mut rep);
-    let n = if args.tier == "thorough" { 24000 } else { 1000 };
+    let n = if args.tier == "thorough" { 24000 } else { 2500 };
     let mut rng = Rng::new(args.seed.wrapping_mul(0x9E37_79B9).wrapping_add(20));
     for i in 0..n {
         let seed = rng.next() >> 16;
